@@ -222,6 +222,12 @@ func gen(rng *rand.Rand, idx int) tcase {
 	return c
 }
 
+type idleTicker struct{ ch chan time.Time }
+
+func (idleTicker) Stop()                    {}
+func (i idleTicker) Chan() <-chan time.Time { return i.ch }
+func (idleTicker) Done()                    {}
+
 type outcome struct {
 	st       *setec.Store
 	err      error
@@ -270,7 +276,7 @@ func TestC10(t *testing.T) {
 		bigFileCache(t, r, tmp)
 		uncleanStructPrefixes(t, r)
 	}
-	r.Require("retry_after_cases", "undeclared_null_entry_cases", "big_file_cache_restarts", "struct_prefix_spellings", "real_client_odd_replies", "returned_nil", "returned_error_ctx", "complete_cache_no_request", "retry_rounds", "fileclient_missing", "fileclient_entries_without_value", "misconfig", "cache_ignored_as_invalid")
+	r.Require("cases_with_a_poll_ticker_of_the_callers", "retry_after_cases", "undeclared_null_entry_cases", "big_file_cache_restarts", "struct_prefix_spellings", "real_client_odd_replies", "returned_nil", "returned_error_ctx", "complete_cache_no_request", "retry_rounds", "fileclient_missing", "fileclient_entries_without_value", "misconfig", "cache_ignored_as_invalid")
 	r.Rule("seeded cases = declared names (1-6 of a 6-name pool, with duplicates, via Secrets and/or a run-time generated tagged struct) x cache content (none, empty, partial, complete, stale, invalid JSON, null entry, entry without secret, empty key, wrong JSON type, one entry with a wrongly typed field, read error) x per-secret service script (ok, fail k times, fail k times with the client's own timeout error, fail until T, hang until T, slow, never; failures with and without the context error wrapped) x expiry age {0, 1h, 30d} with old/zero/future cache stamps x context (background, deadline, cancel at T) x client kind (scripted / real FileClient). Distinct = (cache kind, set of script modes, context kind, client kind, outcome)")
 }
 
@@ -351,6 +357,13 @@ func runCase(t *testing.T, r *evid.Run, c tcase, tmp string) {
 		cfg := setec.StoreConfig{ExpiryAge: c.ExpiryAge, Client: svc, Secrets: append([]string(nil), c.Secrets...), PollInterval: -1, Logf: func(string, ...any) {}}
 		if fileClient != nil {
 			cfg.Client = fileClient
+		}
+		if c.Idx%3 == 1 {
+			// the program brings a poll ticker of its own (here: one that never fires during construction);
+			// construction does not depend on it
+			cfg.PollInterval = 0
+			cfg.PollTicker = idleTicker{ch: make(chan time.Time)}
+			r.Count("cases_with_a_poll_ticker_of_the_callers", 1)
 		}
 		var cache *fakesvc.MonCache
 		if c.Cache != "none" {
